@@ -215,7 +215,14 @@ Inductive fin :=
 | FSaveOmit (os : list col) (v : rec)    (* Omit(cols...).Save(&v) *)
 | FCreateOCSlice (ru : rule) (b : Z) (vs : list rec)
     (* Clauses(OnConflict{...}).Create(&slice) (b = 0) / CreateInBatches(&slice, b) *)
-| FCreateU (ru : rule) (tgt : bool) (v : rec).
+| FCreateU (ru : rule) (tgt : bool) (v : rec)
+(* the same finishers on a model type with a COMPOSITE primary key (id, region) — harness type
+   Stock{ID, Region, Qty, Note}, encoded in [rec] as (r_id, r_name = region, r_age = qty, r_email = note),
+   no tracked times, no soft delete; rows are kept in insertion (rowid) order *)
+| FCSave (v : rec)
+| FCSaveSlice (vs : list rec)
+| FCCreateOC (ru : rule) (v : rec)
+| FCFoc (id : Z) (region : string) (attrs_note : option string) (assign_qty : option Z).
     (* Create + OnConflict rule on a table whose e-mails starting with "u" are UNIQUE (second, partial
        unique index of the harness table); tgt = OnConflict.Columns = [id] written explicitly *)   (* Save(&[]Acct{...}): one INSERT ... ON CONFLICT UPDATE ALL, keys handed back *)
 
@@ -375,6 +382,53 @@ Definition save_slice_run (t : table) (now : Z) (vs : list rec) : table * list r
 Definition create_slice_run (t : table) (now : Z) (ru : rule) (vs : list rec) : table * Z :=
   fold_left (fun acc v => let r := create (fst acc) now (Some ru) v in (res_tbl r, snd acc + res_ra r)) vs (t, 0).
 
+(* ---- composite primary key (id, region) ---------------------------------------------------------------- *)
+Definition ckey_eq (a b : rec) : bool := (r_id a =? r_id b) && String.eqb (r_name a) (r_name b).
+Definition clookup (t : table) (v : rec) : option rec := find (ckey_eq v) t.
+Definition cupd (t : table) (v : rec) (f : rec -> rec) : table := map (fun r => if ckey_eq v r then f r else r) t.
+(* what ON CONFLICT (id, region) DO UPDATE writes: the non-key columns qty, note *)
+Fixpoint coc_apply (ru : rule) (ex old : rec) : rec :=
+  match ru with
+  | RNothing => old
+  | RUpdates cols => copy_cols cols ex old
+  | RAll => copy_cols [CAge; CEmail] ex old
+  | RWhere k r => if r_age old <? k then coc_apply r ex old else old
+  | RTarget _ r => coc_apply r ex old
+  end.
+(* INSERT [... ON CONFLICT ...]: a collision is a row with the SAME (id, region); a row sharing only one
+   member is another row *)
+Definition ccreate (t : table) (ru : option rule) (v : rec) : result :=
+  match clookup t v, ru with
+  | None, _ => mk_result v 1 false 1 (t ++ [v])
+  | Some _, None => mk_result v 0 true 1 t
+  | Some old, Some r => if rule_fires r old
+                        then mk_result v 1 false 1 (cupd t v (coc_apply r v))
+                        else mk_result v 0 false 1 t
+  end.
+(* Save(&struct): UPDATE SET qty, note WHERE id = ? AND region = ?; no row: INSERT ... ON CONFLICT UPDATE ALL
+   with the default conflict target = ALL primary fields *)
+Definition csave (t : table) (v : rec) : result :=
+  match clookup t v with
+  | Some _ => mk_result v 1 false 1 (cupd t v (copy_cols [CAge; CEmail] v))
+  | None => let r := ccreate t (Some RAll) v in mk_result (res_ret r) (res_ra r) (res_err r) 2 (res_tbl r)
+  end.
+Definition csave_slice (t : table) (vs : list rec) : table * Z :=
+  fold_left (fun acc v => let r := ccreate (fst acc) (Some RAll) v in (res_tbl r, snd acc + res_ra r)) vs (t, 0).
+(* Where(map{id, region}).[Attrs(map{note})].[Assign(map{qty})].FirstOrCreate(&dest) *)
+Definition cfoc (t : table) (id : Z) (region : string) (attrs_note : option string) (assign_qty : option Z) : result :=
+  let probe := mk_rec id region 0 "" 0 0 None in
+  match clookup t probe with
+  | Some r =>
+      match assign_qty with
+      | None => mk_result r 0 false 0 t
+      | Some q => let r' := set_col CAge (VInt q) r in mk_result r' 1 false 1 (cupd t probe (fun _ => r'))
+      end
+  | None =>
+      let x := mk_rec id region (match assign_qty with Some q => q | None => 0 end)
+                      (match attrs_note with Some n => n | None => "" end) 0 0 None in
+      mk_result x 1 false 1 (t ++ [x])
+  end.
+
 Definition step (keep : bool) (t : table) (now : Z) (ch : list cel) (f : fin) : result :=
   let h := run_chain keep ch in
   match f with
@@ -386,6 +440,10 @@ Definition step (keep : bool) (t : table) (now : Z) (ch : list cel) (f : fin) : 
                      mk_result (last (snd run) zero_rec) (Z.of_nat (length vs)) false 1 (fst run)
   | FSaveOmit os v => save_omit t now os v
   | FCreateU ru tgt v => create_u t now ru tgt v
+  | FCSave v => csave t v
+  | FCSaveSlice vs => let run := csave_slice t vs in mk_result zero_rec (snd run) false 1 (fst run)
+  | FCCreateOC ru v => ccreate t (Some ru) v
+  | FCFoc id region a q => cfoc t id region a q
   | FCreateOCSlice ru b vs =>
       let run := create_slice_run t now ru vs in
       let n := Z.of_nat (length vs) in
